@@ -34,6 +34,12 @@ EXT_TEXT = (" In addition the translated functions of rand_xoshiro / rand_xorshi
 EXT_NOTE = ("; for the translated functions the tie is a kernel-checked theorem about definitions generated by the translator "
             "tools/rs2lean.py (trusted, cross-checked by an independent interpreter tools/symexec.py); z3 is used only to search for "
             "failing inputs and to recognise behaviour-preserving rewrites, never as a proof obligation")
+EXT_BLOCK = {"C02", "C03"}
+EXT_BLOCK_TEXT = (" In addition the block cores (rand_hc: Hc128Core::step_p, step_q, generate, sixteen_steps, init, from_seed; rand_isaac: "
+                  "ind, rngstep, mix, generate, init, from_seed, seed_from_u64, from_rng, try_from_rng of IsaacCore and Isaac64Core) are "
+                  "regenerated from /repo's current source as Lean definitions on every run (tools/rs2lean.py) and proved equal to the "
+                  "model for all inputs (ExtTie.* obligations, DESIGN.md §3b Extension); a broken one goes to the property's falsifier "
+                  "on the real code.")
 def main():
     checks = []
     for pid, (text, tech) in sorted(T.items()):
@@ -45,6 +51,10 @@ def main():
             text = "[theorems not landed yet: only the correspondence check runs] " + text
             tech = "model/code correspondence check (Lean theorems pending)"
         note = NOTE
+        if pid in EXT_BLOCK:
+            text += EXT_BLOCK_TEXT
+            tech += " + translator-regenerated correspondence theorems (rs2lean)"
+            note = NOTE + EXT_NOTE
         if pid in EXT:
             text += EXT_TEXT
             tech += " + translator-regenerated correspondence theorems (rs2lean)"
@@ -57,7 +67,7 @@ def main():
         hooks=dict(guard="rngs_verif", enable='RUSTFLAGS="--cfg rngs_verif --check-cfg cfg(rngs_verif)" cargo build --offline (harness crate, path deps on /repo crates)',
                    baseline_off_cmd="cd /repo && cargo test --workspace --no-fail-fast --offline", source_commits=["d9042f5"], add_only=True),
         engines=[dict(name="lean-proof+tie", path="tools/check.py", serves_properties=sorted(T),
-                      kind_free_text="Lean 4 theorems about a hand-written executable model (lean/Rngs) + two ties of the model to /repo's current tree on every run: (1) differential correspondence check of the model (lean modeldriver) and the real crates (harness); (2) for rand_xoshiro / rand_xorshift a translator (tools/rs2lean.py) regenerates Lean definitions from the source and Lean proves them equal to the model (tools/exttie.py)")],
+                      kind_free_text="Lean 4 theorems about a hand-written executable model (lean/Rngs) + two ties of the model to /repo's current tree on every run: (1) differential correspondence check of the model (lean modeldriver) and the real crates (harness); (2) for rand_xoshiro / rand_xorshift and the block cores of rand_hc / rand_isaac a translator (tools/rs2lean.py) regenerates Lean definitions from the source and Lean proves them equal to the model (tools/exttie.py)")],
         checks=checks, not_applicable=[],
         notes="fix commits in /repo: 5da9a78 (C14), abe6ce0 (C13); known finding: C16 (known_findings.json)")
     json.dump(m, open(os.path.join(V, "MANIFEST.json"), "w"), indent=1)
